@@ -19,7 +19,7 @@ of these functions that alters behaviour breaks an obligation here without any t
 (written by tools/mkrprops.py)
 -/
 namespace Arimaa
-open Gen GameState Arimaa.Gen.Rs Arimaa.Rt Arimaa.Gen.Bridge
+open Gen GameState Arimaa.Gen.Rs Arimaa.Rt Arimaa.Gen.Bridge Spec
 
 theorem C11_value_of_ok {α : Type} {x : Res α} {p : Bool} {v w : α} (h : x = Res.guard p v) (hx : x = .ok w) :
     p = false ∧ w = v := by
@@ -36,5 +36,31 @@ theorem C11_code_agrees :
    (by simp only [bridge_GameState_take_action]; exact RsAgree.take_action_eq),
    (by simp only [bridge_GameState_is_terminal]; exact RsAgree.is_terminal_eq)⟩
 
+
+theorem C11_code_rule_only (s : GameState) (l : List Action) (hl : GameState_valid_actions_no_rep s = .ok l) :
+    l = s.validActionsNoRep := by
+  simp only [bridge_GameState_valid_actions_no_rep] at hl
+  exact (C11_value_of_ok (RsAgree.valid_actions_no_rep_direct s) hl).2
+theorem C11_code_result_value (s : GameState) (r : Option Terminal)
+    (h : GameState_is_terminal s = .ok r) : r = s.isTerminal := by
+  simp only [bridge_GameState_is_terminal] at h
+  exact (C11_value_of_ok (RsAgree.is_terminal_eq s) h).2
+
+/-- **C11 for the code as it is now**: for two states that are images of each other under a file mirror and / or a
+colour swap with rank flip, the rule-only lists the regenerated code returns correspond action by action, and at
+the start of a turn the results it returns are the swapped results -/
+theorem C11_code_offered_and_result (σ : Sym) (s s' : GameState) (pp pp' : PlayPhase)
+    (h : PlayInv s pp) (h' : PlayInv s' pp') (hr : SymRel σ s pp s' pp') (l l' : List Action)
+    (hl : GameState_valid_actions_no_rep s = .ok l) (hl' : GameState_valid_actions_no_rep s' = .ok l') :
+    (∀ a, σ.iact a ∈ l' ↔ a ∈ l) ∧
+    (pp.step = 0 → pp.pps = .none → ∀ r r', GameState_is_terminal s = .ok r → GameState_is_terminal s' = .ok r' →
+      r' = r.map σ.ires) := by
+  have h1 := C11_code_rule_only s l hl
+  have h2 := C11_code_rule_only s' l' hl'
+  subst h1 h2
+  refine ⟨fun a => (C11_impl_offered_all σ s s' pp pp' h h' hr a).1, ?_⟩
+  intro h0 hpps r r' hrr hrr'
+  rw [C11_code_result_value s r hrr, C11_code_result_value s' r' hrr']
+  exact C11_impl_result σ s s' pp pp' h h' hr h0 hpps
 
 end Arimaa
